@@ -871,6 +871,15 @@ def _is_zero_set(f: 'FormatBound') -> bool:
     return isinstance(f, SetFormat) and f.values == _ZERO_SET.values
 
 
+def _is_only_zeros(f: 'FormatBound') -> bool:
+    """``f`` is a non-empty set holding nothing but zeros, of either sign."""
+    return (
+        isinstance(f, SetFormat)
+        and bool(f.values)
+        and all(v is NEG_ZERO or v == 0 for v in f.values)
+    )
+
+
 def _is_two_set(f: 'FormatBound') -> bool:
     """``f`` is the precise singleton ``{2}`` — the one base whose powers a
     format can state exactly."""
@@ -933,7 +942,7 @@ def exact_binop(
         return SetFormat(result)
     lhs_zero = _is_zero_set(lhs)
     rhs_zero = _is_zero_set(rhs)
-    if op is operator.mul and (lhs_zero or rhs_zero):
+    if op is operator.mul and (_is_only_zeros(lhs) or _is_only_zeros(rhs)):
         # `0 * x` is not `{0}`: IEEE-754 gives NaN for an infinite or NaN *x*
         # and `-0.0` for a negative *x*.  The other operand is a `Format` here
         # — the set/set case returned above — and a float format admits all
